@@ -163,6 +163,43 @@ def handle : Handler := fun op inp impl =>
       why := if holds then "" else
         if !rtAll then "strict " ++ str (field inp "codec") ++ " codec does not decode what it encodes"
         else "unknown field accepted" }
+  | "codecseq" =>
+    let steps := arr (field inp "steps")
+    let isteps := arr (field impl "steps")
+    let isEnc (j : Json) : Bool := str (field j "m") != "decode"
+    let b (j : Json) (k : String) := bool (field j k)
+    let snaps : List (Option Bytes) := (steps.zip isteps).map fun p =>
+      if isEnc p.1 && b p.2 "ok" then some (unhex (str (field p.2 "snap"))) else none
+    -- the marshaller parameter of the model, instantiated with what the implementation returned
+    -- for the message of step i (the message is named by its step)
+    let c : Codec Nat :=
+      { enc := fun i => (snaps[i]?).join,
+        dec := fun d => (snaps.findIdx? (· == some d)).map fun i => (i, []) }
+    let calls : List (Call Nat) := steps.zipIdx.map fun p =>
+      if isEnc p.1 then Call.encode p.2 else Call.decode (nat (field p.1 "of"))
+    let m := runCalls c calls {}
+    let implFinals : List (Option Bytes) := (steps.zip isteps).map fun p =>
+      if isEnc p.1 && b p.2 "ok" then some (unhex (str (field p.2 "final"))) else none
+    let mDecOk : List Bool := m.msgs.map fun r => match r with | some (.ok _) => true | _ => false
+    let implDecOk : List Bool := (steps.zip isteps).map fun p => !isEnc p.1 && b p.2 "ok" && b p.2 "eqNow" && b p.2 "eqEnd"
+    -- the property: every encode call succeeds and its result is kept and decodes to its own
+    -- message after all later calls; every decode of such a result returns that message
+    let holds := isteps.length == steps.length && (steps.zip isteps).all fun p =>
+      if isEnc p.1 then
+        b p.2 "ok" && encodingKept (unhex (str (field p.2 "snap"))) (unhex (str (field p.2 "final"))) (b p.2 "dec")
+          && (str (field p.1 "m") != "append" || b p.2 "pfxKept")
+      else
+        b p.2 "ok" && decodingKept (b p.2 "eqNow") (b p.2 "eqEnd")
+    let firstBad : Nat := ((steps.zip isteps).findIdx? fun p =>
+      if isEnc p.1 then !(b p.2 "ok" && encodingKept (unhex (str (field p.2 "snap"))) (unhex (str (field p.2 "final"))) (b p.2 "dec")
+          && (str (field p.1 "m") != "append" || b p.2 "pfxKept"))
+      else !(b p.2 "ok" && decodingKept (b p.2 "eqNow") (b p.2 "eqEnd"))).getD 0
+    { agree := holds && implFinals == m.bufs && implDecOk == mDecOk, holds := holds,
+      nontrivial := (steps.filter isEnc).length > 1,
+      cls := "seq:" ++ str (field inp "codec"),
+      model := toJson (m.bufs.map fun o => match o with | some x => hex x | none => ""),
+      why := if holds then "" else
+        s!"strict {str (field inp "codec")} codec, call #{firstBad} ({str (field (steps.getD firstBad Json.null) "m")}) of a sequence of {steps.length}: its result is not kept / does not decode to its own message after the later calls of the sequence (a codec result must not depend on later calls)" }
   | "srvtrailers" =>
     let code := int (field inp "code")
     let msg := unhex (str (field inp "msg"))
